@@ -104,9 +104,20 @@ def cmd_run(a):
         try:
             ap = sh(["git", "-C", wt, "apply", os.path.join(d, "patch.diff")])
             if ap.returncode != 0:
-                print("%s: patch no longer applies (%s)" % (name, ap.stderr[:120]))
-                results.append((name, "STALE"))
-                continue
+                # a later "fix:" commit rewrote the lines this change touches: run it on the tree it
+                # was written and validated for
+                base = meta.get("validated", {}).get("repo_commit")
+                ok = False
+                if base:
+                    sh(["git", "-C", wt, "checkout", "-q", "--detach", base])
+                    ap = sh(["git", "-C", wt, "apply", os.path.join(d, "patch.diff")])
+                    ok = ap.returncode == 0
+                if not ok:
+                    print("%s: patch no longer applies (%s)" % (name, ap.stderr[:120]))
+                    results.append((name, "STALE"))
+                    continue
+                print("%s: applied to the tree it was written for (%s), not to HEAD" % (name, base))
+                meta["applied_to"] = base
             props = a.props.split(",") if a.props else [prop]
             for p in props:
                 env = dict(os.environ, VERIF_REPO=wt)
